@@ -174,6 +174,19 @@ def main(run: Run):
     run_configs(run, __name__, cfgs)
     from . import ctor_l1
     ctor_l1.add_to(run, ['eventmonitor_init'])
+    from ..pyvc.driver import discharge_all
+    from ..pyvc.engine import Unsupported
+    try:
+        from contracts import glue_l1
+        fv = glue_l1.verify_eventmonitor_elaborate()
+        run.functions["amaranth_soc.csr.event.EventMonitor.elaborate [statements issued, any event count / bus width]"] = f"proved ({fv.paths} paths, {len(fv.obs)} obligations)"
+        run.require("csr.event.EventMonitor.elaborate::pending-write-is-a-clear-pulse", "csr.event.EventMonitor.elaborate::nothing-else",
+                    "csr.event.EventMonitor.elaborate::source-and-bus-connected-to-the-monitor-and-the-multiplexer")
+        run.assumptions.append("EventMonitor.elaborate contract: Amaranth objects and wiring.connect are recording stubs (which statements / connections are "
+                               "issued); their hardware meaning is Amaranth's (assumed; proved per configuration from the flattened netlist)")
+        discharge_all(run, fv.obs, timeout_ms=10000)
+    except Unsupported as e:
+        run.bounded_notes.append(f"EventMonitor.elaborate: outside the pyvc subset on this tree ({e}); the per-configuration clauses decide")
     return run.finish(
         explanation="Generic CSR-target contract (C04/C05 clauses) re-checked on the flattened EventMonitor at the addresses its "
                     "memory map reports, plus element-level glue clauses (enable latch, pending write-one-to-clear with trigger "
